@@ -2,13 +2,13 @@
    Directives: only those of ExtrOcamlBasic and ExtrOcamlString. *)
 From Coq Require Import Extraction ExtrOcamlBasic ExtrOcamlString.
 From Sylt Require Import Syntax.Resolved Resolve.PAst Resolve.Resolver Resolve.ResolveSpec Gen.GenResolve.
-From Sylt Require Import Dep.Deps Dep.Topo Resolve.Modules Resolve.Wf Resolve.NsShadow.
+From Sylt Require Import Dep.Deps Dep.Topo Resolve.Modules Resolve.Wf Resolve.NsShadow Resolve.TreeOk.
 Extraction Language OCaml.
 (* the resolver as pinned: the flags regenerated from name_resolution.rs on this run *)
 Definition resolve_pinned := Resolver.resolve gen_rflags.
 (* the resolver with every scope restored (what the specification describes) *)
 Definition resolve_fixed := Resolver.resolve (mkFlags true true true true).
 Extraction "resolvemodel.ml" Resolved.mkResolved PAst.mkModule resolve_pinned resolve_fixed ResolveSpec.resolve_spec ResolveSpec.resolve_spec_nsfirst
-  Wf.wf_ast NsShadow.no_ns_shadow gen_rflags
+  Wf.wf_ast NsShadow.no_ns_shadow TreeOk.tree_ok gen_rflags
   Topo.init_order GenResolve.gen_assign_target_deps Resolved.stmt_span
   Modules.tree Modules.use_path Modules.implicit_name GenResolve.gen_std_libs GenResolve.gen_std_uses.
